@@ -380,6 +380,13 @@ class ExprMixin:
             for i in range(la.length):
                 ts.append(self.b(self.truth(self.eq(self.list_get(la, i), self.list_get(lb, i)))))
             return self.wrap(z3.And(*ts), "bool") if ts else True
+        # one side of concrete length n (a literal such as ["-"]): len == n and element-wise equality, a quantifier-free term
+        for x, y in ((la, lb), (lb, la)):
+            if isinstance(x.length, int):
+                ts = [self.z(y.length) == x.length]
+                for i in range(x.length):
+                    ts.append(self.b(self.truth(self.eq(self.list_get(x, i), self.list_get(y, i)))))
+                return self.wrap(z3.And(*ts), "bool")
         if not self.spec:
             raise GenError("== on symbolic lists in code")
         lo, hi = 0, la.length
